@@ -1,5 +1,6 @@
 from pyvc.contracts import contract
 from .function_logger import log_types, wf_at
+from .transformer import vt_types
 
 GPT = "pybads.bads.gaussian_process_train"
 
@@ -44,6 +45,13 @@ def _(c):
     c.bools("options['specify_target_noise']")
     c.req("rows_agree", "rows(gp.y) == rows(gp.X) and implies(not isnone(gp.s2), rows(gp.s2) == rows(gp.X))", props=["C15"])
     c.req("noise_vector_present_when_specified", "implies(truthy(options['specify_target_noise']) and not isnone(sd_new), not isnone(gp.s2))", props=["C15"])
+    # C15 at the call sites (search and poll step): the pair handed in is the evaluation the logger has just made -
+    # the point of the latest target call and, with supplied noise, the SD the target reported at that call
+    c.req("pair_is_the_latest_evaluation", "pteq(invt(pt(x_new)), argpt(ghost.n_calls)) and "
+          "implies(truthy(function_logger.he_noise_flag) and not isnone(sd_new), sd_new == retsd(ghost.n_calls))", props=["C15"])
+    c.ints("ghost.n_calls")
+    c.bools("function_logger.he_noise_flag")
+    vt_types(c, "function_logger.variable_transformer")
     c.mod("gp.X", "gp.y", "gp.s2", "gp.posteriors")
     c.result = {"param": "gp"}
     c.ens("appends_exactly_the_new_pair", "rows(gp.X) == old(rows(gp.X)) + 1 and rows(gp.y) == rows(gp.X) and "
